@@ -545,6 +545,43 @@ func main() {
 				}
 			}
 		}
+		// the same sweep for EVERY string, string-list and string-map field of the message itself (each
+		// field has its own size and encoding code)
+		for i := 0; i < fds.Len(); i++ {
+			fd := fds.Get(i)
+			var set func(x protoreflect.Message, n int)
+			switch {
+			case fd.IsMap():
+				if fd.MapValue().Kind() == protoreflect.StringKind && fd.MapKey().Kind() == protoreflect.StringKind {
+					set = func(x protoreflect.Message, n int) {
+						// the length is split between key and value
+						x.Mutable(fd).Map().Set(protoreflect.ValueOfString(strings.Repeat("k", n/3)).MapKey(), protoreflect.ValueOfString(strings.Repeat("p", n-n/3)))
+					}
+				}
+			case fd.IsList():
+				if fd.Kind() == protoreflect.StringKind {
+					set = func(x protoreflect.Message, n int) {
+						x.Mutable(fd).List().Append(protoreflect.ValueOfString(strings.Repeat("p", n)))
+					}
+				}
+			case fd.Kind() == protoreflect.StringKind:
+				set = func(x protoreflect.Message, n int) { x.Set(fd, protoreflect.ValueOfString(strings.Repeat("p", n))) }
+			}
+			if set == nil {
+				continue
+			}
+			ranges := [][2]int{{100, 140}, {250, 262}}
+			if f.Thorough() {
+				ranges = [][2]int{{0, 262}, {16360, 16400}}
+			}
+			for _, r := range ranges {
+				for L := r[0]; L <= r[1]; L++ {
+					m := mt.New()
+					set(m, L)
+					check(st, f.Prop, m.Interface(), fmt.Sprintf("%s sized %d bytes", fd.Name(), L))
+				}
+			}
+		}
 		if ti%8 == 0 {
 			res.Sample(map[string]any{"type": string(md.Name()), "example": fmt.Sprint(allSet(mt, 1).Interface())})
 		}
